@@ -154,13 +154,10 @@ func (w *dnsWorld) idle(d time.Duration) {
 		return
 	}
 	w.s.Notef("idle for %v", d)
-	// the sleeper's timer makes the scheduler's time step end exactly at the target;
-	// the loop stops there, before the (now runnable) sleeper or anything else runs
+	// a timer armed right now makes the scheduler's time step end exactly at the
+	// target; the loop stops there, before the timer's (empty) task or anything else runs
 	target := w.s.Now() + d
-	verifsim.Go("sleeper", func() {
-		time.Sleep(d)
-		verifsim.YieldB("sleeper-woke")
-	})
+	verifsim.AfterFunc("idle-timer", d, func() {})
 	w.s.RunUntil(func() bool { return w.s.Now() >= target }, 10)
 	if w.track != nil {
 		w.track.scan()
